@@ -62,6 +62,9 @@ def gen_script(rng, sw, spec, idx, tier, prop):
     pool = ["source"] * (3 if want_errors and special != "model_only" else 0) + ["toggle"] * (2 if want_errors else 0) + ["constraint"] * 2 + ["par"] * 2 + ["gc", "collide"]
     if prop == "C10":
         pool += ["fixrel"] * 5 + ["constraint"] * 3
+    midread = sw.random() < 0.3
+    if midread:
+        pool += ["read"] * 3  # "at any point": the observation may also follow earlier reads between the mutators
     for _ in range(n_mut):
         k = rng.choice(pool)
         if k == "source" and nsrc < 6:
@@ -74,6 +77,8 @@ def gen_script(rng, sw, spec, idx, tier, prop):
             i = rng.randrange(nsrc)
             ops.append(["disable", i])
             if rng.random() < 0.6:
+                if midread and rng.random() < 0.6:
+                    ops.append(["read", "cost"])
                 ops.append(["enable", i])
         elif k == "constraint" and sum(1 for o in ops if o[0] in ("constraint", "mconstraint")) < 3:
             ops.append(fitlib.gen_constraint(rng, spec))
@@ -98,6 +103,8 @@ def gen_script(rng, sw, spec, idx, tier, prop):
                 ops.append(["release", nm])
         elif k == "gc":
             ops.append(["gc"])
+        elif k == "read":
+            ops.append(["read", rng.choice(["cost", "cost", "total_error", "ndf"])])
         elif k == "collide" and nsrc and nsrc < 6 and want_errors:
             ops.append(["collide"])
             op = fitlib.gen_source(rng, spec, nsrc, force={"kind": "simple"})
@@ -123,6 +130,8 @@ class CostMachine(Machine):
         t = FTYPES[idx % len(FTYPES)]
         spec = fitlib.gen_new(rng, t, nmax=8 if tier == "quick" else 14, numerical_ok=True)
         pre, ops = gen_script(rng, sw, spec, idx, tier, getattr(self, "_prop", "C01"))
+        if sw.random() < 0.12 and (spec["cost"].startswith("chi2") or spec["cost"].startswith("gauss")) and spec["cost"] != "chi2_no_errors" and t != "unbinned":
+            spec["nodet"] = True
         probes = [list(spec["ptrue"])] + [fitlib.gen_point(rng, spec) for _ in range(sw.randint(1, 3))]
         if sw.random() < 0.3:
             probes.append(None)  # the fit's own defaults: no set_all before the observation
@@ -180,6 +189,14 @@ class CostMachine(Machine):
                 continue
             if k == "gc":
                 world.collect()
+                continue
+            if k == "read":
+                # an intermediate read; what it returns is judged by the probes of other runs, here it only creates cache history
+                try:
+                    _ = {"cost": lambda: sim.fit.cost_function_value, "total_error": lambda: sim.fit.total_error, "ndf": lambda: sim.fit.ndf}[op[1]]()
+                except Exception:
+                    res.bump("midread_raised")
+                res.probe("read_between_mutators")
                 continue
             if k == "collide":
                 # scripted collision of a generated name with an existing name *in the container that receives the next source*
